@@ -147,7 +147,14 @@
      value while it is suspended and the second awaiter's value after its last resume; variables back to the initial
      value at the flush point and at the end).  The same program is the corpus case _SHARED_HOLDS_OVERRIDE of
      harness/props/c07.py, executed on the implementation and compared with the model on every run; generated DAG-shaped
-     programs (machgen.Gen.diamond) are covered by correspondence + monitors only. *)
+     programs (machgen.Gen.diamond) are covered by correspondence + monitors only.
+   WITHOUT THE HYPOTHESIS no_unwind FOR stree PROGRAMS (end of the file; proofs/MachineGuardFormsS.v): the stree
+   theorems whose hypothesis is no_unwind P n (start h s1) are restated with "the MAX_TASK_STACK_SIZE guard has not
+   fired before step n" in its place (MachineNoUnwind.stree_no_unwind_iff_guard_silent):
+   C07_contexts_nest_lifo_stree_guard, C07_reads_see_enclosing_overrides_stree_guard,
+   C07_reads_innermost_stree_guard, C07_values_restored_stree_guard, C07_values_at_flush_stree_guard,
+   C07_layers_are_the_active_contexts_stree_guard, C07_layer_owners_await_stree_guard,
+   C07_saved_values_stree_guard. *)
 From Asynq Require Import Machine Seq proofs.MachineC08 proofs.MachineC01 proofs.MachineC04 proofs.MachineC07.
 From Asynq Require Import proofs.MachineC07R.
 From Asynq Require Import proofs.MachineC01S proofs.MachineDFSS proofs.MachineC06S proofs.MachineC07S proofs.MachineC07D.
@@ -566,3 +573,112 @@ Theorem C07_shared_task_saves_at_every_resume :
   var_get 0 (c_st (c 200%nat)) = VInt 0.
 Proof. exact c07d_saved_value_follows_the_last_resume. Qed.
 Print Assumptions C07_shared_task_saves_at_every_resume.
+
+(* ==== the stree theorems WITHOUT an assumption about exceptions unwinding (proofs/MachineNoUnwind.v, MachineGuardFormsS.v) ====
+   [no_unwind P n (start h s1)] is replaced by "the MAX_TASK_STACK_SIZE guard has not fired before step n"; also with
+   synchronous calls FutureIsAlreadyComputed is proved unreachable (stree_no_unwind_iff_guard_silent), so the guard's
+   RuntimeError is the only exception that can unwind through asynq's frames.  Binders and conclusions are those of
+   the theorems of the same name without the suffix _guard. *)
+From Asynq Require Import proofs.MachineNoUnwind proofs.MachineGuardFormsS.
+Theorem C07_contexts_nest_lifo_stree_guard : forall P, pointwise P -> forall p, stree p -> wns [] p -> forall n,
+  let h := fst (create [] (FTask p) (st0 P)) in
+  let s1 := snd (create [] (FTask p) (st0 P)) in
+  (forall k, (k < n)%nat -> guard_fires P (run P k (start h s1)) = false) ->
+  exists l, layers (c_st (run P (S n) (start h s1))) = layers (c_st (run P n (start h s1))) ++ l \/
+            layers (c_st (run P n (start h s1))) = layers (c_st (run P (S n) (start h s1))) ++ l.
+Proof. exact contexts_nest_lifo_stree_guard. Qed.
+Print Assumptions C07_contexts_nest_lifo_stree_guard.
+
+Theorem C07_reads_see_enclosing_overrides_stree_guard : forall P, pointwise P -> forall p, stree p -> wns [] p -> forall n t q,
+  let h := fst (create [] (FTask p) (st0 P)) in
+  let s1 := snd (create [] (FTask p) (st0 P)) in
+  (forall j, (j < n)%nat -> guard_fires P (run P j (start h s1)) = false) -> c_mode (run P n (start h s1)) = MRun t q ->
+  let c := run P n (start h s1) in
+  let s := c_st c in
+  (forall x, var_get x s = apply_l (fun x => var_get x s1) (layers s) x) /\
+  exists tk rest, get t s = Some (mkFut None (KTask tk)) /\ tk_cact tk = true /\
+    (wns (tk_ctxs tk) q \/ exists h' k, q = Sync h' k /\ forall o, wns (tk_ctxs tk) (k o)) /\
+    tasks s = t :: rest /\ ~ In t rest /\ layers s = lower s rest ++ map (pair t) (tk_ctxs tk) /\
+    (forall u cx, In (u, cx) (lower s rest) ->
+       In u rest /\ exists tku, get u s = Some (mkFut None (KTask tku)) /\ tk_cact tku = true /\ In cx (tk_ctxs tku) /\
+                                (In u (fvals (c_frames c)) \/ tk_ds tku = true)) /\
+    (forall x, In x (fvals (c_frames c)) ->
+       In x rest /\ exists tkx, get x s = Some (mkFut None (KTask tkx)) /\ tk_cact tkx = true /\
+                                forall cx, In cx (tk_ctxs tkx) -> In (x, cx) (lower s rest)).
+Proof. exact reads_see_enclosing_overrides_stree_guard. Qed.
+Print Assumptions C07_reads_see_enclosing_overrides_stree_guard.
+
+Theorem C07_reads_innermost_stree_guard : forall P, pointwise P -> forall p, stree p -> wns [] p -> forall n t q x,
+  let h := fst (create [] (FTask p) (st0 P)) in
+  let s1 := snd (create [] (FTask p) (st0 P)) in
+  (forall k, (k < n)%nat -> guard_fires P (run P k (start h s1)) = false) -> c_mode (run P n (start h s1)) = MRun t q ->
+  let s := c_st (run P n (start h s1)) in
+  (forall pre u cid v post, layers s = pre ++ (u, COverride cid x v) :: post ->
+     (forall l, In l post -> ovar (snd l) <> Some x) -> var_get x s = v) /\
+  ((forall l, In l (layers s) -> ovar (snd l) <> Some x) -> var_get x s = var_get x s1).
+Proof. exact reads_innermost_stree_guard. Qed.
+Print Assumptions C07_reads_innermost_stree_guard.
+
+Theorem C07_values_restored_stree_guard : forall P, pointwise P -> forall p, stree p -> wns [] p -> forall n,
+  let h := fst (create [] (FTask p) (st0 P)) in
+  let s1 := snd (create [] (FTask p) (st0 P)) in
+  (forall k, (k < n)%nat -> guard_fires P (run P k (start h s1)) = false) ->
+  ((exists o, c_mode (run P n (start h s1)) = MDone o) \/
+   (c_mode (run P n (start h s1)) = MAfterExec /\ fvals (c_frames (run P n (start h s1))) = [])) ->
+  forall x, var_get x (c_st (run P n (start h s1))) = var_get x s1.
+Proof. exact values_restored_stree_guard. Qed.
+Print Assumptions C07_values_restored_stree_guard.
+
+Theorem C07_values_at_flush_stree_guard : forall P, pointwise P -> forall p, stree p -> wns [] p -> forall n,
+  let h := fst (create [] (FTask p) (st0 P)) in
+  let s1 := snd (create [] (FTask p) (st0 P)) in
+  (forall k, (k < n)%nat -> guard_fires P (run P k (start h s1)) = false) ->
+  c_mode (run P n (start h s1)) = MAfterExec ->
+  let c := run P n (start h s1) in
+  let s := c_st c in
+  (forall x, var_get x s = apply_l (fun x => var_get x s1) (layers s) x) /\
+  (forall u cx, In (u, cx) (layers s) <->
+     exists tk, get u s = Some (mkFut None (KTask tk)) /\ tk_cact tk = true /\ In cx (tk_ctxs tk)) /\
+  (forall u tk, get u s = Some (mkFut None (KTask tk)) -> tk_cact tk = true ->
+     In u (tasks s) /\ (In u (fvals (c_frames c)) \/ tk_ds tk = true)) /\
+  (forall u, In u (fvals (c_frames c)) -> exists tk, get u s = Some (mkFut None (KTask tk)) /\ tk_cact tk = true).
+Proof. exact values_at_flush_stree_guard. Qed.
+Print Assumptions C07_values_at_flush_stree_guard.
+
+Theorem C07_layers_are_the_active_contexts_stree_guard : forall P, pointwise P -> forall p, stree p -> wns [] p -> forall n u c,
+  let h := fst (create [] (FTask p) (st0 P)) in
+  let s1 := snd (create [] (FTask p) (st0 P)) in
+  (forall k, (k < n)%nat -> guard_fires P (run P k (start h s1)) = false) ->
+  is_final (c_mode (run P n (start h s1))) = false ->
+  let s := c_st (run P n (start h s1)) in
+  In (u, c) (layers s) <->
+  exists tk, get u s = Some (mkFut None (KTask tk)) /\ tk_cact tk = true /\ In c (tk_ctxs tk).
+Proof. exact layers_are_the_active_contexts_stree_guard. Qed.
+Print Assumptions C07_layers_are_the_active_contexts_stree_guard.
+
+Theorem C07_layer_owners_await_stree_guard : forall P, pointwise P -> forall p, stree p -> forall n t q,
+  let h := fst (create [] (FTask p) (st0 P)) in
+  let s1 := snd (create [] (FTask p) (st0 P)) in
+  (forall k, (k < n)%nat -> guard_fires P (run P k (start h s1)) = false) -> c_mode (run P n (start h s1)) = MRun t q ->
+  let c := run P n (start h s1) in
+  let s := c_st c in
+  forall rest, tasks s = t :: rest -> forall u cx, In (u, cx) (lower s rest) -> awaits s (c_frames c) u t.
+Proof. exact layer_owners_await_stree_guard. Qed.
+Print Assumptions C07_layer_owners_await_stree_guard.
+
+Theorem C07_saved_values_stree_guard : forall P, pointwise P -> forall p, stree p -> wns [] p -> forall n,
+  let h := fst (create [] (FTask p) (st0 P)) in
+  let s1 := snd (create [] (FTask p) (st0 P)) in
+  (forall k, (k < n)%nat -> guard_fires P (run P k (start h s1)) = false) ->
+  match c_mode (run P n (start h s1)) with
+  | MUnwind _ | MStuck => True
+  | _ =>
+    let s := c_st (run P n (start h s1)) in
+    let init := fun x => var_get x s1 in
+    (forall x, var_get x s = apply_l init (layers s) x) /\
+    (forall pre t cid var v post, layers s = pre ++ (t, COverride cid var v) :: post ->
+       ci_old (ci_get (t, cid) s) = apply_l init pre var) /\
+    NoDup (map lkey (layers s))
+  end.
+Proof. exact saved_values_stree_guard. Qed.
+Print Assumptions C07_saved_values_stree_guard.
